@@ -45,18 +45,21 @@ TAGS = ('F1', 'F2', 'F3', 'F4')
 
 
 def _listed_tags():
+    """Finding tags (F1..) whose entry is still 'known' in the committed lists (known_findings.json overrides the
+    per-property working file).  Read from the files, not from ctx.known, so that generation and replay (which the
+    runner executes without the known list) perform exactly the same operations."""
     import json, os
     root = os.path.dirname(os.path.dirname(os.path.abspath(__file__)))
-    tags = set()
-    for rel in ('known_findings.json', os.path.join('findings', 'C12.json')):
+    status = {}
+    for rel in (os.path.join('findings', PROPERTY + '.json'), 'known_findings.json'):
         path = os.path.join(root, rel)
         if not os.path.exists(path):
             continue
         with open(path) as f:
             for k in json.load(f):
-                if k.get('property') == PROPERTY and k.get('status') == 'known' and '-' in k.get('id', ''):
-                    tags.add(k['id'].split('-', 1)[1])
-    return tags
+                if k.get('property') == PROPERTY and '-' in k.get('id', ''):
+                    status[k['id'].split('-', 1)[1]] = k.get('status')
+    return {t for t, st in status.items() if st == 'known'}
 
 
 LISTED = _listed_tags()
